@@ -11,6 +11,7 @@ package c09
 
 import (
 	"fmt"
+	"os"
 	"runtime/debug"
 	"sort"
 	"strings"
@@ -70,9 +71,9 @@ type ment struct {
 // labels collected while a history runs (evidence classes, NT rule).
 type labels struct {
 	growth, chain2, chain3, evict, evictFirstEnd, evictLastEnd, evictAfterGrowth bool
-	setMaxMid, setMaxBelow, removeMid, removeChain, sortAny, sortAfterRemove    bool
-	sortTrunc, updateAtFull, moveFirst, moveLast, lruMove, emptyKey, extremeKey   bool
-	negKey, cleared, removedAny, noOverRefused, multiEvict, nullKeyIgnored        bool
+	setMaxMid, setMaxBelow, removeMid, removeChain, sortAny, sortAfterRemove     bool
+	sortTrunc, updateAtFull, moveFirst, moveLast, lruMove, emptyKey, extremeKey  bool
+	negKey, cleared, removedAny, noOverRefused, multiEvict, nullKeyIgnored       bool
 	steps, maxSize                                                               int
 }
 
@@ -819,6 +820,15 @@ func (r *runner) exec(op Op, last bool) error {
 		if got, want := in.containsValue(code), m.containsValue(s.valEq, code); got != want {
 			return r.failf("ContainsValue(%s) = %v, model %v", s.valStr(code), got, want)
 		}
+	case "containsValueOf":
+		// state-relative: the value currently stored under key K (else a value of the alphabet)
+		code := r.val(op.V)
+		if i := m.find(k); i >= 0 {
+			code = m.es[i].V
+		}
+		if got, want := in.containsValue(code), m.containsValue(s.valEq, code); got != want {
+			return r.failf("ContainsValue(%s) = %v, model %v", s.valStr(code), got, want)
+		}
 	case "clear":
 		m.clear()
 		in.clear()
@@ -1084,6 +1094,12 @@ func drawCase(s *sut) func(t *rapid.T) Case {
 				op.K, op.V = drawKey(), rapid.IntRange(0, s.nVals-1).Draw(t, "v")
 			case "unipoint", "get", "getLRU", "remove", "containsKey":
 				op.K = drawKey()
+			case "containsValueOf":
+				op.K, op.V = drawKey(), rapid.IntRange(0, s.nVals-1).Draw(t, "v")
+			case "clear":
+				if rapid.IntRange(0, 3).Draw(t, "reallyClear") > 0 {
+					op.Op, op.K, op.V = "put", drawKey(), rapid.IntRange(0, s.nVals-1).Draw(t, "v")
+				}
 			case "containsValue", "setNone":
 				op.V = rapid.IntRange(0, s.nVals-1).Draw(t, "v")
 			case "setMax":
@@ -1091,7 +1107,7 @@ func drawCase(s *sut) func(t *rapid.T) Case {
 			case "fill":
 				op.Op = "fill-" + rapid.SampledFrom(putOps).Draw(t, "fillop")
 				op.K = rapid.IntRange(0, nb-1).Draw(t, "fk")
-				op.V = rapid.IntRange(1, 40).Draw(t, "fn")
+				op.V = rapid.IntRange(1, pbt.Pick(40, 120)).Draw(t, "fn")
 			}
 			return op
 		}
@@ -1106,7 +1122,7 @@ func drawCase(s *sut) func(t *rapid.T) Case {
 			ops = append(ops, Op{Op: "setMax", V: mx})
 		}
 		if growth {
-			n := rapid.IntRange(60, 110).Draw(t, "fill0")
+			n := rapid.IntRange(70, pbt.Pick(115, 330)).Draw(t, "fill0")
 			if c.Custom {
 				n = rapid.IntRange(4, 60).Draw(t, "fill0c")
 			}
@@ -1222,5 +1238,43 @@ func TestMethodCoverage(t *testing.T) {
 			pbt.Note("hist-%s: exported methods not exercised: %s", n, strings.Join(missing, ","))
 			t.Logf("%s: not exercised: %v", n, missing)
 		}
+	}
+}
+
+// TestRegressions replays, through the same machinery, the minimal histories
+// of the defects this check found on the pinned tree (F21–F24, F36, F091, F092),
+// so that reverting any of the fixes fails deterministically.
+func TestRegressions(t *testing.T) {
+	if os.Getenv("VERIF_REPLAY") != "" {
+		t.Skip("replay mode")
+	}
+	if i, _ := pbt.Shard(); i != 0 {
+		t.Skip("only on shard 0")
+	}
+	run := func(typ string, ops ...Op) {
+		specFor(typ).RunCase(t, Case{Type: typ, Ops: ops})
+	}
+	for _, typ := range []string{"IntKeyLinkedMap", "IntIntLinkedMap", "IntFloatLinkedMap", "LongFloatLinkedMap", "LongLongLinkedMap"} {
+		// F21: ContainsValue walked tab[len(tab)]
+		run(typ, Op{Op: "put", K: 4, V: 0}, Op{Op: "containsValue", V: 0}, Op{Op: "containsValue", V: 5})
+	}
+	for _, typ := range []string{"StringIntLinkedMap", "StringLongLinkedMap"} {
+		// F21: ContainsValue skipped bucket 0 (key index 5 hashes to bucket 0)
+		run(typ, Op{Op: "put", K: 5, V: 2}, Op{Op: "containsValueOf", K: 5}, Op{Op: "containsValue", V: 2})
+		// F24: Add* must accumulate
+		run(typ, Op{Op: "add", K: 0, V: 0}, Op{Op: "add", K: 0, V: 1}, Op{Op: "addFirst", K: 0, V: 2}, Op{Op: "addLast", K: 0, V: 5}, Op{Op: "get", K: 0})
+		// F092: Values() enumerated entries
+		run(typ, Op{Op: "put", K: 0, V: 0}, Op{Op: "put", K: 1, V: 1})
+	}
+	// F22: Sort locked twice
+	run("IntKeyLinkedMap", Op{Op: "put", K: 1, V: 0}, Op{Op: "put", K: 0, V: 1}, Op{Op: "sortAsc"}, Op{Op: "sortDesc"})
+	// F23: wrong type assertions
+	run("LongLongLinkedMap", Op{Op: "put", K: 0, V: 0}, Op{Op: "toString"})
+	run("LinkedSet", Op{Op: "put", K: 1}, Op{Op: "put", K: 0}, Op{Op: "sortAsc"}, Op{Op: "sortDesc"})
+	// F36: the empty string is stored but Contains("") was hard-wired to false
+	run("StringLinkedSet", Op{Op: "put", K: 4}, Op{Op: "containsKey", K: 4}, Op{Op: "remove", K: 4}, Op{Op: "containsKey", K: 4})
+	// F091: ToBytes asserted the entry by value
+	for _, typ := range []string{"IntFloatLinkedMap", "LongFloatLinkedMap"} {
+		run(typ, Op{Op: "put", K: 0, V: 1}, Op{Op: "toBytes"})
 	}
 }
